@@ -365,6 +365,44 @@ def readkey_material(info):
     return out
 
 
+# ------------------------------------------------------------------ mutable share fields (reader-visible, outside the signature)
+TAG_PRIVKEY_TO_WRITEKEY = b"allmydata_mutable_privkey_to_writekey_v1"     # re-typed (mutable.rst / hashutil comments)
+
+
+def enc_privkey_field(share):
+    """The 'encrypted private key' field of an SDMF (version 0) or MDMF (version 1) share, located through the offset
+    table as the specification lays it out; None when the bytes are not such a share."""
+    import struct
+    if not share:
+        return None
+    if share[0] == 0:
+        fmt = ">BQ32s16sBBQQLLLLQQ"
+        if len(share) < struct.calcsize(fmt):
+            return None
+        f = struct.unpack(fmt, share[:struct.calcsize(fmt)])
+        o_enc, o_eof = f[-2], f[-1]
+        return share[o_enc:o_eof]
+    if share[0] == 1:
+        fmt = ">BQ32sBBQQQQQQQQQQ"
+        if len(share) < struct.calcsize(fmt):
+            return None
+        f = struct.unpack(fmt, share[:struct.calcsize(fmt)])
+        o_enc, o_shc = f[7], f[8]
+        return share[o_enc:o_shc]
+    return None
+
+
+def der_trim(b):
+    """Cut a byte string that starts with a DER SEQUENCE (long form, 2 length bytes) to that object's length."""
+    if len(b) >= 4 and b[0] == 0x30 and b[1] == 0x82:
+        return b[:4 + int.from_bytes(b[2:4], "big")]
+    return b
+
+
+def writekey_of_signing_key(der):
+    return M.tagged(TAG_PRIVKEY_TO_WRITEKEY, der, 16)
+
+
 # ------------------------------------------------------------------ unknown ("future") caps
 UNKNOWN_SCHEMES = [b"x-tahoe-future-test-writeable:", b"x-tahoe-future-test-mutable:", b"x-tahoe-future:",
                    b"lafs://from_the_future/"]
